@@ -10,12 +10,17 @@
 (*             x_ext <- x + theta (x - x_old),  theta = 1                     *)
 (*             resid^2 = |x - x_old|^2/tau + |u - u_old|^2/sigma              *)
 (*   _done     iter >= max_iter or resid <= tol (tol = 0)                     *)
+(* A second family ("tv") puts the data term in the primal and the l1 norm    *)
+(* in the dual:  min_x 1/2 (x - y)^2 + lam |a x|,  prox_{sigma f^*} = clip to   *)
+(* [-lam, lam],  prox_{tau g}(w) = (w + tau y)/(1 + tau): from a zero start    *)
+(* the dual stays put while the primal moves.  theta is the caller's          *)
+(* extrapolation factor (1, 1/2 or 0 = Arrow-Hurwicz).                        *)
 (* Steps may be per-component (array-valued tau, sigma) with                  *)
 (* tau_i sigma_i a_i^2 <= 1.                                                  *)
 (* DEFINITION LAYER: the saddle point  x^ = prox_{g/a^2}(y/a),  u^ = a x^ - y.  *)
 EXTENDS Rat, Sequences, TLC
 
-CONSTANTS Insts,    \* records [id, cap, a, y : Seq(Rat), g : STRING, lam, lo, hi : Rat, tau, sigma : Seq(Rat), x0, u0 : Seq(Rat), start : STRING]
+CONSTANTS Insts,    \* records [id, cap, fam : STRING, theta : Rat, a, y : Seq(Rat), g : STRING, lam, lo, hi : Rat, tau, sigma : Seq(Rat), x0, u0 : Seq(Rat), start : STRING]
           MaxIters
 VARIABLES inst, max_iter, iter, x, u, xext, xprev, moved
 vars == <<inst, max_iter, iter, x, u, xext, xprev, moved>>
@@ -31,22 +36,32 @@ ProxG(t, w) ==
     [] inst.g = "sq"   -> RDiv(w, RAdd(RInt(1), RMul(t, inst.lam)))
     [] inst.g = "box"  -> RMax(inst.lo, RMin(w, inst.hi))
 
+Tv == inst.fam = "tv"
 StepU(uu, xe) == TLCEval([i \in 1..N |->
-   RDiv(RSub(RAdd(uu[i], RMul(inst.sigma[i], RMul(inst.a[i], xe[i]))), RMul(inst.sigma[i], inst.y[i])), RAdd(RInt(1), inst.sigma[i]))])
-StepX(xx, un) == TLCEval([i \in 1..N |-> ProxG(inst.tau[i], RSub(xx[i], RMul(inst.tau[i], RMul(inst.a[i], un[i]))))])
-Extr(xn, xo) == TLCEval([i \in 1..N |-> RAdd(xn[i], RSub(xn[i], xo[i]))])
+   LET w == RAdd(uu[i], RMul(inst.sigma[i], RMul(inst.a[i], xe[i]))) IN
+   IF Tv THEN RMax(RNeg(inst.lam), RMin(w, inst.lam))
+   ELSE RDiv(RSub(w, RMul(inst.sigma[i], inst.y[i])), RAdd(RInt(1), inst.sigma[i]))])
+StepX(xx, un) == TLCEval([i \in 1..N |->
+   LET w == RSub(xx[i], RMul(inst.tau[i], RMul(inst.a[i], un[i]))) IN
+   IF Tv THEN RDiv(RAdd(w, RMul(inst.tau[i], inst.y[i])), RAdd(RInt(1), inst.tau[i]))
+   ELSE ProxG(inst.tau[i], w)])
+Extr(xn, xo) == TLCEval([i \in 1..N |-> RAdd(xn[i], RMul(inst.theta, RSub(xn[i], xo[i])))])
 
 \* ---------------------------------------------------------------- definition layer
-XStarI(i) == IF inst.a[i] = RInt(0)
+XStarI(i) == IF Tv THEN Soft(inst.y[i], RMul(inst.lam, RAbs(inst.a[i])))      \* tv family: a # 0
+             ELSE IF inst.a[i] = RInt(0)
              THEN ProxG(RInt(1), RInt(0))     \* flat data term: minimiser of g alone (0, or the box point nearest 0); "zero" instances keep a # 0
              ELSE ProxG(RInv(RSq(inst.a[i])), RDiv(inst.y[i], inst.a[i]))
-UStarI(i) == RSub(RMul(inst.a[i], XStarI(i)), inst.y[i])
+UStarI(i) == IF Tv THEN RDiv(RSub(inst.y[i], XStarI(i)), inst.a[i])            \* stationarity x - y + a u = 0
+             ELSE RSub(RMul(inst.a[i], XStarI(i)), inst.y[i])
 XStar == TLCEval([i \in 1..N |-> XStarI(i)])
 UStar == TLCEval([i \in 1..N |-> UStarI(i)])
 \* M-distance of (xx, uu) to the saddle point, M = [[1/tau, -A^H], [-A, 1/sigma]]
-MDist(xx, uu) == RSum(TLCEval([i \in 1..N |->
+\* (A is diagonal, so the distance splits into components each of which is non-increasing; per component the exact
+\* rationals stay small)
+MDistI(i, xx, uu) ==
     LET dx == RSub(xx[i], XStarI(i))  du == RSub(uu[i], UStarI(i)) IN
-    RAdd(RSub(RDiv(RSq(dx), inst.tau[i]), RMul(RInt(2), RMul(inst.a[i], RMul(dx, du)))), RDiv(RSq(du), inst.sigma[i]))]), N)
+    RAdd(RSub(RDiv(RSq(dx), inst.tau[i]), RMul(RInt(2), RMul(inst.a[i], RMul(dx, du)))), RDiv(RSq(du), inst.sigma[i]))
 Admissible == \A i \in 1..Len(inst.a) : RLe(RMul(RMul(inst.tau[i], inst.sigma[i]), RSq(inst.a[i])), RInt(1))
 
 \* ---------------------------------------------------------------- algorithm layer
@@ -74,7 +89,7 @@ SaddleIsFixed == AtSaddle => (StepU(u, xext) = u /\ StepX(x, StepU(u, xext)) = x
 EarlyStopIsSaddle == (iter >= 1 /\ ~moved /\ xext = x) => (x = XStar /\ u = UStar)
 EarlyStopIsFixed == (iter >= 1 /\ ~moved) => (xext = x /\ StepU(u, xext) = u /\ StepX(x, StepU(u, xext)) = x)
 \* Fejer monotonicity in the M-norm of the pair (previous primal, current dual) - He & Yuan 2012 for theta = 1
-FejerMonotone == [][iter >= 1 => RLe(MDist(x, u'), MDist(xprev, u))]_vars
+FejerMonotone == [][(iter >= 1 /\ inst.theta = RInt(1)) => \A i \in 1..N : RLe(MDistI(i, x, u'), MDistI(i, xprev, u))]_vars
 CounterByOne == [][iter' = iter + 1]_vars
 Terminates == <>Done
 ===========================================================================
